@@ -405,12 +405,19 @@ class C15(CheckBase):
                     md.packages_distributions, md.version = pd, ver
                     tm._pkg_digest = None
                     EXT_VERSION[0] = version
+                    # (the add-on is imported in this process: it provides
+                    # the expression type)
+                    import sys as _sys
+                    import types as _types
+                    _sys.modules.setdefault("verif_ext",
+                                            _types.ModuleType("verif_ext"))
                     try:
                         return super().cook(body)
                     finally:
                         md.packages_distributions, md.version = old_pd, old_v
                         tm._pkg_digest = old_memo
                         EXT_VERSION[0] = old_ext
+                        _sys.modules.pop("verif_ext", None)
             WithAddon.__name__ = cls.__name__
             WithAddon.__qualname__ = cls.__qualname__
             WithAddon.__module__ = cls.__module__
